@@ -608,7 +608,7 @@ def check(rep, tier, seed, variant="hooks"):
             nops = rng.choice([40, 100, 200]) if quick else rng.choice([60, 120, 200])
             hs.append(gen_history(lib, rng, "%s-h%d" % (lib.name, i), nops))
         res, ps = C.run_batches(b, lib.imports, ENGINE_HEADER + lib.header, [(h["id"], h["form"]) for h in hs], batch=5,
-                                env_extra=env, timeout=30, heap="64M/512M")
+                                env_extra=env, timeout=20, heap="64M/512M")
         heap_lines(rep, ps)
         ops = 0
         for h in hs:
